@@ -1,10 +1,17 @@
 #!/bin/bash
-# mut.sh <patch-file> <ID> [tier]  — apply a patch to /repo, run the check, always revert.
+# mut.sh <patch-file> <ID> [tier]  — run a check against a changed copy of the repository.
+# The patch is applied to a scratch worktree of /repo (VERIF_REPO), never to /repo itself, and the
+# run's evidence and replay files go to a scratch directory (VERIF_RESULTS), so nothing under
+# /verif/evidence ever describes a changed tree. Everything is removed afterwards.
 set -u
 patch="$1"; id="$2"; tier="${3:-quick}"
-git -C /repo apply "$patch" || { echo "patch does not apply"; exit 3; }
-trap 'git -C /repo checkout -- . ; git -C /repo clean -fdq -- . 2>/dev/null' EXIT
-cd /verif && ./vcheck "$id" "$tier"
+wt="/tmp/verif-mut/$id-$$"
+mkdir -p /tmp/verif-mut
+git -C /repo worktree prune
+git -C /repo worktree add -q --detach "$wt/repo" HEAD || exit 3
+trap 'git -C /repo worktree remove --force "$wt/repo" 2>/dev/null; git -C /repo worktree prune; rm -rf "$wt"' EXIT
+git -C "$wt/repo" apply "$patch" || { echo "patch does not apply"; exit 3; }
+cd /verif && VERIF_REPO="$wt/repo" VERIF_RESULTS="$wt/out" ./vcheck "$id" "$tier"
 rc=$?
 echo "mut rc=$rc"
 exit $rc
